@@ -18,11 +18,15 @@ let put_zb x = put_str (tok_of_z x)
 let next_id () = match next_int () with
   | 1 -> IInt (next_zb ())
   | 2 -> IStr (next_str ())
-  | _ -> IUuid (next_n ())
+  | 3 -> IUuid (next_n ())
+  | 4 -> INull
+  | _ -> IOdd (next_n ())
 let put_id = function
   | IInt x -> put_int 1; put_zb x
   | IStr s -> put_int 2; put_nstr s
   | IUuid n -> put_int 3; put_n n
+  | INull -> put_int 4
+  | IOdd n -> put_int 5; put_n n
 let next_bool () = next_int () <> 0
 
 let next_mid () = match next_int () with 0 -> None | _ -> Some (next_id ())
